@@ -216,9 +216,9 @@ def compile_names(res, tier):
     res.parts["compiled_names"] = names
 
 
-def renamed_corpus(res, tier):
-    """Every quick program of every family, rendered with the dependency renamed to `fw`."""
-    cp = e2.Corpus("renamed-" + tier, fw="fw")
+def renamed_corpus(res, tier, fw="fw", only=None):
+    """Every quick program of every family (or the selection `only`), rendered with the dependency renamed to `fw`."""
+    cp = e2.Corpus(("renamed-" if fw == "fw" else "renamed_%s-" % fw) + tier, fw=fw)
     progs = []
     for pid, c, tags in fam_basic.programs(tier):
         progs.append((pid, c))
@@ -232,13 +232,17 @@ def renamed_corpus(res, tier):
     from . import c06_e2
     for pid, c in c06_e2.programs(tier):
         progs.append((pid, c))
+    if only is not None:
+        progs = [(pid, c) for pid, c in progs if pid in only]
+        if len(progs) != len(only):
+            raise core.MachineryError("renamed corpus selection %s not found (have %s)" % (sorted(only), [p for p, _ in progs]))
     # E1 names for glue (constructors / helpers) are read from the standard expansion
     recs = []
     for pid, c in progs:
         recs.append(model.e1_contract_record(pid + ":ct", c, want="items"))
         for i in c.interfaces:
             recs.append(model.e1_interface_record(pid + ":" + i.module, i, want="items"))
-    obs = {o["id"]: o for o in core.e1_run(recs, "renamed-" + tier)}
+    obs = {o["id"]: o for o in core.e1_run(recs, "renamed-%s-%s" % (fw, tier))}
     for pid, c in progs:
         names = {}
         for k, fns in e2.e1_names(obs[pid + ":ct"]).items():
@@ -248,22 +252,22 @@ def renamed_corpus(res, tier):
                 names[(i.module, k)] = fns
         c2 = c
         glue = e2.subject_impl(e2.basic_glue(c2, names))
-        text = e2.render_program(pid, c2, fw="fw", glue=glue)
-        text = text.replace("sylvia::cw_utils::", "fw::cw_utils::").replace(" sylvia::serde::", " fw::serde::").replace(" sylvia::schemars::", " fw::schemars::")
+        text = e2.render_program(pid, c2, fw=fw, glue=glue)
+        text = text.replace("sylvia::cw_utils::", fw + "::cw_utils::").replace(" sylvia::serde::", " %s::serde::" % fw).replace(" sylvia::schemars::", " %s::schemars::" % fw)
         if "AliasedResult" in text:
             text = text.replace("use vsupport::{json, Value};", "use vsupport::{json, Value};\ntype AliasedResult = StdResult<u32>;")
         cp.add(pid, text)
     cp.write()
-    cp.build(check_only=(tier == "quick"))
+    cp.build(check_only=(tier == "quick" or only is not None))
     for pid, c in progs:
         res.add(states=1, transitions=1, traces=1, evaluations=1)
-        res.mark_nontrivial("renamed:" + pid)
+        res.mark_nontrivial("renamed:%s:%s" % (fw, pid))
         if pid in cp.failed:
             d = cp.failed[pid]
             res.violation({"kind": "rename", "cls": "does_not_compile", "pid": pid, "diags": d[:4], "codes": sorted(set(x["code"] for x in d if x.get("code"))),
-                           "what": "%s: compiles under the name `sylvia` but not with the dependency renamed to `fw`: %s %s" % (pid, d[0].get("code"), d[0]["message"])})
-    res.parts["renamed_programs"] = len(progs)
-    if tier == "thorough":
+                           "what": "%s: compiles under the name `sylvia` but not with the dependency renamed to `%s`: %s %s" % (pid, fw, d[0].get("code"), d[0]["message"])})
+    res.parts["renamed_programs" + ("" if fw == "fw" else "_" + fw)] = len(progs)
+    if tier == "thorough" and only is None:
         # "... and behaves identically": the basic family's traces on the renamed build vs the normal build
         base_cp, info = fam_basic.corpus(tier)
         cases = []
@@ -296,11 +300,13 @@ def run(tier):
     run_e1_pairs(res, tier)
     compile_names(res, tier)
     renamed_corpus(res, tier)
+    # a second import name with a digit between letters and a capital: the name must be used exactly as the manifest spells it
+    renamed_corpus(res, tier, fw="Fw2x_b", only={"ptypes0", "pparts2", "rtables", "rorder_es", "pg1", "pcust0"})
     res.sample({"renamed_dependency": "fw = { package = \"sylvia\", path = \"/repo/sylvia\" }", "program": "every quick program of families basic, custom, reply, generic, override"})
     res.sample({"parameter_name_program": model.render_contract_impl(named_contract("C"))[1][:600]})
     res.cov["rule"] = ("(a) every program of the families basic, custom, reply, generic and override (all code-generation branches: every kind, interfaces, bridged "
                        "interfaces, generics, every reply arm incl. pass-through, every data mode, overrides, multitest helpers) rendered with the dependency renamed "
-                       "to `fw` (no `sylvia` name in the crate) must compile; (b) a generic contract with replies and an interface with an associated type whose "
+                       "to `fw` (no `sylvia` name in the crate) must compile, a selection of six of them also under the import name `Fw2x_b`; (b) a generic contract with replies and an interface with an associated type whose "
                        "parameter is named each of the 26 single letters and 13 conventional words: every generic-parameter list of the expansion is checked for "
                        "duplicates / shadowing (E1) and the programs are compiled (E3; quick: 13 names, thorough: all 39); the name list is closed over every type-parameter "
                        "and associated-type name the generated code itself introduces (read from the expansion; reserved prefix `Sv` excluded); (c) a two-parameter "
